@@ -123,6 +123,87 @@ Theorem C12_valid : forall hd sp ip ap inf inp r,
 Proof. exact c12_valid. Qed.
 Print Assumptions C12_valid.
 
+(* ---- files of standard AND IAT batches ---------------------------------------------------------- *)
+
+(* Create of a consolidated IAT batch is C05's IATBatch.build followed by IATBatch.isCategory: header
+   valid, ODFI numeric, every entry with its mandatory addenda records and a numeric trace number:
+   build succeeds and tabulates the control from the caller's entries *)
+Theorem C12_create_iat : forall hd ip x,
+  hd_ok (hd (b_sig x)) = true -> hd_odfi_num (hd (b_sig x)) = true -> b_entries x <> nil ->
+  Forall (fun e => BuildIAT.incl_ok (to_iat_entry ip e) = true /\ ip_tr_num (ip (e_core e)) = true) (b_entries x) ->
+  category_ok x = true ->
+  exists b', create_iat GTT hd ip x = Some b'
+    /\ Offsets.c_count (BuildIAT.ib_ctl b') = BuildIAT.icount (map (to_iat_entry ip) (b_entries x))
+    /\ Offsets.c_credit (BuildIAT.ib_ctl b') = BuildIAT.icredits GTT (map (to_iat_entry ip) (b_entries x))
+    /\ Offsets.c_debit (BuildIAT.ib_ctl b') = BuildIAT.idebits GTT (map (to_iat_entry ip) (b_entries x)).
+Proof. exact c12_create_iat. Qed.
+Print Assumptions C12_create_iat.
+
+(* C12_succeeds and C12_valid for files that hold standard and IAT batches ([kiat]: the kind that goes
+   with a header signature).  Standard batches valid in the Arith sense, IAT batches accepted by
+   IATBatch.build (per entry: addendaFieldInclusion, numeric trace number; numeric ODFI), the file
+   control the tabulation of all entries (IAT: isBatchEntryCount, calculateBatchAmounts of C05Iat):
+   every consolidated batch of either kind passes Create, none is dropped, File.Create (one
+   running sequence over Batches then IATBatches) succeeds, the three comparisons with the
+   original control hold, entries strictly ascending by trace number in every batch. *)
+Theorem C12_succeeds_iat : forall hd sp ip ap kiat inf inp r,
+  mixed_file kiat inp -> inp <> nil -> i_hdr_ok inf = true ->
+  kinds_consistent inp -> Forall traces_nodup inp ->
+  Forall (fun b => kiat (b_sig b) = false -> Arith.validate_batch GA (f_batch GA (hp_of hd) (fp_of sp) b) = Arith.ROk) inp ->
+  Forall (mixed_pair hd ip kiat) (ids inp) ->
+  i_count inf = sum_pairs (cnt_p ip kiat) inp ->
+  i_debit inf = sum_pairs (db_p GT GTT sp ip kiat) inp -> i_credit inf = sum_pairs (cr_p GT GTT sp ip kiat) inp ->
+  cat_rule inp ->
+  i_debit inf <= Arith.t_file_limit GA -> i_credit inf <= Arith.t_file_limit GA ->
+  flatten_full_spec GA GT GTT hd sp ip ap inf inp r ->
+  (fst r = FOk \/ (fst r = FErrValidate /\ file_ctl_ok GA (snd r) = false))
+  /\ Offsets.fc_count (af_ctl (snd r)) = i_count inf
+  /\ Offsets.fc_debit (af_ctl (snd r)) = i_debit inf
+  /\ Offsets.fc_credit (af_ctl (snd r)) = i_credit inf
+  /\ exists all, r = finish GA GT GTT hd sp ip ap inf all /\ flatten_spec inp (finalize all)
+       /\ (length (af_std (snd r)) + length (af_iat (snd r)) = length all)%nat
+       /\ Forall (fun x => (created_s GA GT hd sp kiat x \/ created_i GTT hd ip kiat x) /\ StronglySorted trace_lt (b_entries x)) (pre all).
+Proof. exact c12_succeeds_iat. Qed.
+Print Assumptions C12_succeeds_iat.
+
+(* non-vacuity: two standard batches with one header and two IAT batches with one header; the whole
+   function returns OK with one batch of each kind, IAT entries in trace order, original figures *)
+Theorem C12_succeeds_iat_example :
+  (mixed_file mx_kiat mx_inp /\ mx_inp <> nil /\ i_hdr_ok mx_inf = true /\ kinds_consistent mx_inp /\ Forall traces_nodup mx_inp /\
+   Forall (fun b => mx_kiat (b_sig b) = false -> Arith.validate_batch GA (f_batch GA (hp_of mx_hd) (fp_of fx_sp) b) = Arith.ROk) mx_inp /\
+   Forall (mixed_pair mx_hd mx_ip mx_kiat) (ids mx_inp) /\
+   i_count mx_inf = sum_pairs (cnt_p mx_ip mx_kiat) mx_inp /\
+   i_debit mx_inf = sum_pairs (db_p GT GTT fx_sp mx_ip mx_kiat) mx_inp /\
+   i_credit mx_inf = sum_pairs (cr_p GT GTT fx_sp mx_ip mx_kiat) mx_inp /\
+   cat_rule mx_inp /\ i_debit mx_inf <= Arith.t_file_limit GA /\ i_credit mx_inf <= Arith.t_file_limit GA) /\
+  (let r := flatten_full_stable GA GT GTT mx_hd fx_sp mx_ip fx_ap mx_inf mx_inp in
+   fst r = FOk /\ length (af_std (snd r)) = 1%nat /\ length (af_iat (snd r)) = 1%nat /\
+   map (fun b => map BuildIAT.ie_trace (BuildIAT.ib_entries b)) (af_iat (snd r)) = (231380100000003 :: 231380100000005 :: nil) :: nil /\
+   Offsets.fc_count (af_ctl (snd r)) = 21 /\ Offsets.fc_credit (af_ctl (snd r)) = 3800).
+Proof. exact (conj mx_hyps mx_result). Qed.
+Print Assumptions C12_succeeds_iat_example.
+
+(* ---- ADV batches ----------------------------------------------------------------------------------- *)
+
+(* Create of a consolidated ADV batch (C05's ADV branch of Batch.build, then isCategory over the ADV
+   entries) succeeds exactly when it holds at most 9998 ADV entries *)
+Theorem C12_create_adv : forall hd ap x,
+  hd_ok (hd (b_sig x)) = true -> b_entries x = nil -> b_adv x <> nil -> category_ok x = true ->
+  (create_adv GTT hd ap x <> None <-> BuildIAT.zlen (b_adv x) <= 9998).
+Proof. exact c12_create_adv_iff. Qed.
+Print Assumptions C12_create_adv.
+
+(* ... and consolidation knows no such limit: two ADV batches of 5000 entries with one header, each
+   accepted by Create, on which the whole function returns File.Create's error with no batch added
+   (known finding flatten:error:adv-sequence-limit; the real FlattenBatches is replayed on
+   corpus/C12/full-adv-two-batches-of-5000.json on every run) *)
+Theorem C12_succeeds_adv_limit_refuted :
+  exists hd sp ip ap inf inp,
+    Forall (fun b => create_adv GTT hd ap b <> None /\ is_category_std true b = true) inp /\ kinds_consistent inp /\
+    exists r, flatten_full_spec GA GT GTT hd sp ip ap inf inp r /\ fst r = FErrCreate /\ af_std (snd r) = nil.
+Proof. exact c12_succeeds_adv_limit_refuted. Qed.
+Print Assumptions C12_succeeds_adv_limit_refuted.
+
 (* ---- the executable models of the correspondence are instances of the specification ------------ *)
 
 Theorem C12_full_stable_admissible : forall hd sp ip ap inf inp,
